@@ -11,7 +11,34 @@ def one_case(prelude, case, views_out, alts_out):
     ffi = cffi.FFI()
     ffi.cdef(prelude)
     declared = {}
-    for d, v in zip(case["decls"], case["views"]):
+    opq = case.get("opaque")
+    if opq:
+        # (1) the tag is declared opaque, (2) used while opaque, (3) ONE later cdef() defines it together with the
+        # aggregates its pointer fields refer to, (4) every aggregate is queried below
+        try:
+            ffi.cdef(opq["fwd"])
+            if opq["use"] == "typeof":
+                ffi.typeof(opq["ptr"])
+            elif opq["use"] == "prototype":
+                ffi.cdef("int use_%s(%sarg);" % (opq["tag"], opq["ptr"]))
+                ffi.typeof("int(*)(%s)" % opq["ptr"])
+            else:
+                ffi.cdef("struct holder_%s { %sh; int z; };" % (opq["tag"], opq["ptr"]))
+                ffi.sizeof("struct holder_%s" % opq["tag"])
+            srcs = [d["src"] for d in case["decls"]]
+            if opq["order"] == "top-first":
+                srcs = srcs[-1:] + srcs[:-1]
+            pack = case["decls"][-1]["pack"]
+            if pack:
+                ffi.cdef("\n".join(srcs), pack=pack)
+            else:
+                ffi.cdef("\n".join(srcs))
+            for v in case["views"]:
+                declared[v["tag"]] = None
+        except Exception as e:
+            for v in case["views"]:
+                declared[v["tag"]] = "cdef sequence: " + type(e).__name__
+    for d, v in (zip(case["decls"], case["views"]) if not opq else []):
         m = d.get("mention")
         if m:        # an earlier cdef() call that only mentions the tag, with its own packing options
             try:
